@@ -57,6 +57,7 @@ def verify_contract(repo: str, con: Any, contracts_by_target: dict[str, Any], mo
     world = World(repo, model_paths)
     # a contract whose obligations are known to be slow for the solver (symbolic modulus) asks for more time
     ctx = Ctx(max(timeout_ms, int(con.__dict__.get("prove_timeout_s", 0) * 1000)))
+    ctx.cross_check_every = 4 if timeout_ms > 10000 else 0
     budget = con.__dict__.get("budget_s", 150 if timeout_ms <= 10000 else 900)
     ctx.deadline = time.time() + budget
     ctx.name_prefix = f"{con.target}{'' if mode == 'main' else '{' + mode + '}'}"
@@ -211,7 +212,7 @@ def verify_contract(repo: str, con: Any, contracts_by_target: dict[str, Any], mo
     obligations = [] if result["out_of_subset"] else [ob.to_json() for ob in ctx.obligations.values()]
     if not result["out_of_subset"]:
         for ob_obj, ob_json in zip(ctx.obligations.values(), obligations):
-            if ob_obj.smt2 and ob_obj.status == "undecided":
+            if ob_obj.smt2 and ob_obj.status in ("undecided", "discharged"):
                 ob_json["smt2"] = ob_obj.smt2
     result["obligations"] = obligations
     result["paths"] = ctx.paths
